@@ -74,7 +74,14 @@ func runSelftest(id, repo string, w io.Writer, only string) int {
 				}
 			}
 		case "must-pass":
-			ok = code == 0 && len(out.Violations) == 0 && len(out.Undecided) == 0
+			// a harmless change must not raise an alarm and must not orphan a contract;
+			// undecided obligations outside the baseline (slow covers etc.) do not count
+			ok = code == 0 && len(out.Violations) == 0
+			for _, u := range out.Undecided {
+				if strings.HasPrefix(u, "orphan") || strings.HasPrefix(u, "vacuous") || strings.HasPrefix(u, "no contract") {
+					ok = false
+				}
+			}
 		}
 		status := "ok"
 		if !ok {
